@@ -601,7 +601,7 @@ theorem invD_flush (g : Cfg) (s : S) (ks : List KAns) (hi : InvD g s) : InvD g (
   · exact hi
   rename_i hc
   split
-  · exact hi
+  · exact hi.of_D (D_cResetRead g s)
   · exact invD_flushLoop g _ s ks hi (by simpa using hc) (Nat.lt_succ_self _)
 
 /-! ### registration, events, close -/
